@@ -24,6 +24,15 @@ T_Untils     == {-1, 0, 2, 3}
 T_Epochs     == {1, 2, 3}
 T_Bad        == {"empty", "long"}
 
+\* nested locks: two lock addresses, one user, Alphabet only (the order of inner and outer in the release loop matters)
+N_Users      == {"u1"}
+N_LockSeq    == <<"l1", "l2">>
+N_SignerSets == {{"ALPHA"}}
+N_Amounts    == {0, 1, 2}
+N_Untils     == {1, 2}
+N_Epochs     == {1, 2}
+N_Bad        == {}
+
 \* simulation (scenario generation): richer, unbounded walk
 S_Users      == {"u1", "u2", "u3", "kc"}
 S_LockSeq    == <<"l1", "l2", "l3">>
